@@ -21,9 +21,18 @@ def run(ctx):
         # thorough: two deviations at most 15 scheduling steps apart under LIFO as well
         *([] if q else [{"scens": two, "policies": ("LIFO",), "bound": 2, "window": 15, "demote": True, "cap": 400000}]),
         {"scens": wcat.nested_scenarios()[1:], "policies": ("FIFO", "LIFO", "JOBS"), "bound": 1, "demote": True, "cap": 30000},
+        # a job under the token fails (or its process is killed: the pid file stays behind) and is launched again by its scheduler - its
+        # token file has the same name at every launch - while a second process has jobs on the token
+        {"scens": wcat.token_relaunch_scenarios(), "policies": wcat.POL_PROC + (() if q else ("FIFO", "LIFO", "JOBS")), "bound": 1, "demote": True, "cap": 60000},
     ]
+    relaunch = wcat.jobkill_relaunch_scenarios()
+    for pol in (("FIFO",) + wcat.POL_PROC) if q else (wcat.POL_WIDE + wcat.POL_PROC + wcat.POL_EAGER[1:]):
+        plan.append({"scens": relaunch, "policies": (pol,), "kills": {"restart_bound": 0}})
+    # after the kill: one long preemption at every later point (the other process is slow, then everything it does happens at once)
+    for pol in (("Q:1,2,job",) if q else ("Q:1,2,job", "Q:2,1,job", "FIFO")):
+        plan.append({"scens": relaunch[:1] if q else relaunch, "policies": (pol,), "kills": {"restart_bound": 1, "demote": "only"}})
     return run_w(ctx, PROPERTY, plan,
                  "token workloads (capacity; requests) in {(1;1,1) (1;1,1,1) (2;1,1,1) (2;2,1) (3;2,1) (3;2,2) (2;1,2,1)}, failing holder, chain / fork "
                  "under a token, two tokens, file-based and process-level tokens, two simulated processes sharing the token directory with "
-                 "fine-grained points; at every launch and every token-file creation the sum of requests of live job processes / of token files "
+                 "fine-grained points; a failed / killed holder launched again while a second process shares the token (every kill point, long preemptions after the kill); at every launch and every token-file creation the sum of requests of live job processes / of token files "
                  "must not exceed the capacity")
